@@ -4,6 +4,8 @@
 
   * `itoa v`: `[]byte(strconv.Itoa(v))` by its SPECIFICATION (decimal digits, most significant first, `-` for negatives),
     not the library code.
+  * `mk3n n c`: `make([]T, n, c)` when the capacity is never observed; `setContains`: membership in an `intSet`.
+  * `utf8Byte c`: `string(rune(c))` of a byte by its specification.
   * `latin1Utf8 bs`: `charmap.ISO8859_1.NewDecoder().Bytes(bs)` by its specification: every byte is the code point of the
     same value, encoded as UTF-8 (one byte below 0x80, two bytes otherwise); the decoder never fails.
   Core Lean only.
@@ -20,8 +22,20 @@ def natDigits : Nat → Nat → List Int
 def itoa (v : Int) : List Int :=
   if v < 0 then 45 :: natDigits ((-v).toNat + 1) (-v).toNat else natDigits (v.toNat + 1) v.toNat
 
+/-- `make([]T, n, c)` of a slice whose capacity the function never observes: the two makeslice checks, `n` zeros -/
+def mk3n (n c : Int) : Res (List Int) :=
+  if n < 0 then .error (.panic "makeslice: len out of range")
+  else if c < n then .error (.panic "makeslice: cap out of range")
+  else .ok (List.replicate n.toNat 0)
+
+/-- `s.contains(n)` of an intSet (the list of the keys added) -/
+def setContains (s : List Int) (n : Int) : Bool := s.contains n
+
+/-- `string(rune(c))` of a byte `c`: the UTF-8 encoding of the code point U+00cc -/
+def utf8Byte (b : Int) : List Int := if b < 128 then [b] else [192 + b / 64, 128 + b % 64]
+
 /-- `charmap.ISO8859_1.NewDecoder().Bytes(bs)`: ISO-8859-1 bytes as UTF-8 -/
 def latin1Utf8 (bs : List Int) : List Int :=
-  bs.flatMap (fun b => if b < 128 then [b] else [192 + b / 64, 128 + b % 64])
+  bs.flatMap utf8Byte
 
 end Gzx.GoM
